@@ -9,6 +9,13 @@ CFGS = {
     # stage 1: every kind of input and output, no relay pull
     "L1": dict(RtmpPubs=["p1", "p2"], RtspPubs=["q1"], CustPubs=["k1"], PsPubs=["g1"], RtmpSubs=["s1"], FlvSubs=["f1"],
                PullRetry=0, PullAuto=-1, PullEnabled=False),
+    # relay pull: retry budget n / forever / never, auto-stop after a window / never / immediately
+    "P1": dict(RtmpPubs=["p1"], RtspPubs=[], CustPubs=[], PsPubs=[], RtmpSubs=["s1"], FlvSubs=[],
+               PullRetry=1, PullAuto=1, PullEnabled=True, Hook=False),
+    "P2": dict(RtmpPubs=["p1"], RtspPubs=[], CustPubs=[], PsPubs=[], RtmpSubs=[], FlvSubs=["f1"],
+               PullRetry=-1, PullAuto=-1, PullEnabled=True),
+    "P3": dict(RtmpPubs=["p1", "p2"], RtspPubs=[], CustPubs=[], PsPubs=[], RtmpSubs=["s1"], FlvSubs=[],
+               PullRetry=0, PullAuto=0, PullEnabled=True, Hook=False),
     "L2": dict(RtmpPubs=["p1"], RtspPubs=[], CustPubs=["k1"], PsPubs=["g1"], RtmpSubs=[], FlvSubs=["f1"],
                PullRetry=0, PullAuto=-1, PullEnabled=False),
 }
@@ -26,6 +33,7 @@ def write_cfg(cid, mode, max_tick, max_att):
     for k in ("PullRetry", "PullAuto"):
         lines.append("  %s %s" % (k, ("<- Neg1" if c[k] == -1 else "= %d" % c[k])))
     lines.append("  PullEnabled = %s" % ("TRUE" if c["PullEnabled"] else "FALSE"))
+    lines.append("  HookOn = %s" % ("TRUE" if c.get("Hook", True) else "FALSE"))
     lines.append("  MaxTick = %d" % max_tick)
     lines.append("  MaxAttempts = %d" % max_att)
     lines.append("INVARIANTS " + INVS)
@@ -49,7 +57,7 @@ def drv_cfg(cid):
     c = CFGS[cid]
     return {"rtmpPubs": c["RtmpPubs"], "rtspPubs": c["RtspPubs"], "custPubs": c["CustPubs"], "psPubs": c["PsPubs"],
             "rtmpSubs": c["RtmpSubs"], "flvSubs": c["FlvSubs"], "pullRetry": c["PullRetry"],
-            "pullAutoMs": (-1 if c["PullAuto"] < 0 else c["PullAuto"] * 300)}
+            "pullAutoMs": (-1 if c["PullAuto"] < 0 else c["PullAuto"] * 700), "hook": c.get("Hook", True)}
 
 
 def signature(r):
@@ -67,7 +75,8 @@ def run_lifecycle(ctx, bfs, emit, sim):
     scen = []
 
     def add(cid, steps):
-        st = [{"name": a["name"], "x": a.get("x", "")} for a in steps]
+        st = [{"name": a["name"], "x": a.get("x", ""), "expAttempts": a.get("obs", {}).get("attempts", 0),
+               "expNotif": len(a.get("obs", {}).get("notif", []))} for a in steps]
         scen.append({"sc": len(scen), "cfg": drv_cfg(cid), "cfgId": cid, "steps": st})
 
     for (cid, mt, ma) in bfs:
@@ -98,6 +107,21 @@ def run_lifecycle(ctx, bfs, emit, sim):
     E.write_ndjson(sp, scen)
     E.run_driver(ctx, "lifecycle", sp, tp, timeout=3000)
     rows = E.read_ndjson(tp)
+    # scenarios during which the machine stalled (real time no longer matches the abstract clock) are
+    # inconclusive: they are dropped, never judged
+    bad = set(r["sc"] for r in rows if r.get("ev") == "inconclusive")
+    if bad:
+        ctx.log("%d scenario(s) inconclusive because of timing jitter: dropped" % len(bad))
+        if len(bad) > max(5, len(scen) // 5):
+            raise E.Infra("too many inconclusive scenarios (%d of %d): machine too loaded" % (len(bad), len(scen)))
+    kept, cursc = [], None
+    for r in rows:
+        if r.get("ev") == "reset":
+            cursc = r["sc"]
+        if cursc in bad or r.get("ev") == "inconclusive":
+            continue
+        kept.append(r)
+    rows = kept
     groups, cur = {}, None
     for r in rows:
         if r.get("ev") == "reset":
